@@ -190,8 +190,10 @@ Definition get_element_size (c : emap) (e : el) : res (option (num * num)) :=
   do t <- get_target_element c e; el_size c t.
 
 (* get_element_bbox, including use/reuse translation and clip-path intersection. The clip-path
-   recursion (a clipPath may itself carry a clip-path) is bounded by explicit fuel. *)
-Fixpoint bbox_loop (fuel : nat) (c : emap) (e : el) : res (option bbox) :=
+   recursion (a clip target may itself carry a clip-path) follows [seen], the order indices of the
+   clip targets already visited (clipped_element_bbox's clip_seen): a chain leading back to itself is
+   a circular reference. Every step adds a new index of the map, which bounds the chain and the fuel. *)
+Fixpoint bbox_loop (fuel : nat) (c : emap) (seen : list Z) (e : el) : res (option bbox) :=
   do t <- get_target_element c e;
   do b <- el_bbox t;
   do b <-
@@ -213,19 +215,20 @@ Fixpoint bbox_loop (fuel : nat) (c : emap) (e : el) : res (option bbox) :=
           match get_element c r with
           | None => Err EReference
           | Some ce =>
-              if String.eqb (ename ce) "clipPath" then
-                match fuel with
-                | O => OutOfFuel
-                | S f => do cb <- bbox_loop f c ce;
+              if existsb (Z.eqb (eidx ce)) seen then Err ECircularRef else
+              match fuel with
+              | O => OutOfFuel
+              | S f => do cb <- bbox_loop f c (eidx ce :: seen) ce;
+                       if String.eqb (ename ce) "clipPath" then
                          match cb with Some cbb => Ok (bb_intersect N bb cbb) | None => Ok b end
-                end
-              else Ok b
+                       else Ok b
+              end
           end
       end
   | _, _ => Ok b
   end.
 Definition get_element_bbox (c : emap) (e : el) : res (option bbox) :=
-  bbox_loop (S (List.length (cmap c))) c e.
+  bbox_loop (S (S (List.length (cmap c)))) c [] e.
 
 (* split_relspec *)
 Definition split_relspec (c : emap) (input : string) : res (option el * string) :=
